@@ -403,7 +403,7 @@ fn thread_stress(c: &mut Case, n_threads: usize, iters: usize) {
 fn long_sequence(c: &mut Case) {
     let limit = 1 + c.rng.below(4);
     let runner = config(64, limit).async_runner();
-    let n = 300 + c.rng.below(300);
+    let n = if c.ctx.miri() { 140 } else { 300 + c.rng.below(300) };
     let mut tokens: std::collections::VecDeque<Token> = std::collections::VecDeque::new();
     for i in 0..n {
         let cw = CountWaker::new();
